@@ -127,6 +127,10 @@ class CoreCheck(LineCheck):
             cs = [int(x) for x in m.group(1).split(",")] if m else [0]
             mine = [c for c in cs if c == 0 or self.my_code(c)]
             if mine:
+                io = st["ires"][idx][0] or ""
+                xs = [seg for seg in io.split(" | ") if seg.startswith("X ")]
+                if xs:
+                    v = "harness rule violated by the implementation: " + xs[0][2:] + " [" + v + "]"
                 keep.append((idx, "%s (monitor clauses %s, see Core/Monitors.v)" % (v, mine)))
             else:
                 other += 1
